@@ -487,8 +487,8 @@ class InClass:
         no_push_item = self.no_push_item
 
         if self.sort_expr is not None:
-            self.sort = self.sort_expr.eval(md)
-            sequence = self.sort_sequence(sequence, md)
+            sequence = self.sort_sequence(sequence, md,
+                                          self.sort_expr.eval(md))
         elif self.sort is not None:
             sequence = self.sort_sequence(sequence, md)
 
@@ -699,8 +699,8 @@ class InClass:
         no_push_item = self.no_push_item
 
         if self.sort_expr is not None:
-            self.sort = self.sort_expr.eval(md)
-            sequence = self.sort_sequence(sequence, md)
+            sequence = self.sort_sequence(sequence, md,
+                                          self.sort_expr.eval(md))
         elif self.sort is not None:
             sequence = self.sort_sequence(sequence, md)
 
@@ -782,7 +782,7 @@ class InClass:
 
         return result
 
-    def sort_sequence(self, sequence, md):
+    def sort_sequence(self, sequence, md, sort=None):
 
         # Modified with multiple sort fields by Ross Lazarus
         # April 7 2000 rossl@med.usyd.edu.au
@@ -792,7 +792,10 @@ class InClass:
         # Oleg Broytmann <phd@phd.pp.ru> 30 Mar 2001
         # eg <dtml-in "foo" sort="akey/nocase,anotherkey/cmp/desc">
 
-        sort = self.sort
+        if sort is None:
+            # the compiled tag is shared by all renders (and threads): a
+            # per-render sort_expr value must not be stored on it
+            sort = self.sort
         need_sortfunc = sort.find('/') >= 0
 
         sortfields = sort.split(',')  # multi sort = key1,key2
